@@ -2,6 +2,19 @@
 HOOK_COMMITS = []
 NOT_APPLICABLE = {}
 LEVELS = {
+    "C09": {
+        "text": "Proof: C09_order_irrelevant / C09_replicas_agree state that, on every state reachable from any genesis, every ABCI call of "
+                "the model yields the same response and the same state whatever order each map is ranged over, so replicas given the same "
+                "block sequence agree at every height (induction over the history; the per-site lemmas are permutation invariance of the "
+                "vote count, of DiffPowermaps and of the sorted update list). C09_map_ranges_pinned / C09_clock_calls_pinned are "
+                "`decide` theorems over facts regenerated from /repo on every run, so a new map range, clock, OS or randomness use in "
+                "package app breaks a proof obligation. The model is tied to the code by differential histories; replica agreement is "
+                "additionally observed directly (second OS process, repeated in-process runs, byte-wise).",
+        "design_ref": "DESIGN.md §4 C09",
+        "note": "Trusted: Lean kernel; correspondence harness and factx; tx byte layer and crypto oracles are parameters of the model; "
+                "amino/protobuf/gob library determinism is observed, not proved.",
+        "technique": "Lean 4 theorem (order-independence by induction over histories) + regenerated source facts + differential/two-process replica runs",
+    },
     "C12": {
         "text": "Proof: C12_diff_apply (apply(old, updates(old,new)) = new under Tendermint set/remove semantics, for all maps without "
                 "zero-power entries and all map iteration orders), C12_updates_sorted, C12_removals_present, C12_order_independent, "
